@@ -203,7 +203,7 @@ pub fn run(ctx: &Ctx, rep: &mut Report, unit: &mut usize) {
         }
     }
     // drop points
-    let max_len = ctx.tier.pick(5usize, 7);
+    let max_len = ctx.tier.pick(4usize, 7);
     let mut seqs: Vec<Vec<usize>> = Vec::new();
     let mut frontier: Vec<Vec<usize>> = vec![vec![]];
     for _ in 0..max_len {
